@@ -271,7 +271,7 @@ Theorem fp_sample_safe : forall C st L,
   Forall (Safe (ext_dense 1 st (sample_rows C L)) balign_dense) (fp_sample C st L).
 Proof. exact FpProofs.fp_sample_safe. Qed.
 
-(* ---------- NEON kernels (neon.rs; not compiled on x86_64: source tie only, no sanitizer run) ---------- *)
+(* ---------- NEON kernels (neon.rs; not compiled for the x86_64 host: source tie only, no sanitizer run) ---------- *)
 
 Theorem fp_encode_into_neon_safe : forall L Ld accs,
   0 <= L -> wrap_encode fp_encode_into_neon L Ld = Ok (Entered accs) ->
@@ -283,9 +283,9 @@ Proof.
   split; [exact (safe_in_bounds _ _ _ S) | exact (safe_aligned _ _ _ S)].
 Qed.
 
-(* WITH the row-range guard of the x86 wrappers (ranged = true: three lines neon.rs does not have)
-   the NEON scoring kernels are safe *)
-Theorem fp_score_f32_neon_ranged_safe : forall C p accs,
+(* the NEON scoring kernels are safe for every call their wrappers let through (the wrappers have the
+   row-range guard of the x86 wrappers since commit 9cd9b52) *)
+Theorem fp_score_f32_neon_safe : forall C p accs,
   sp_nonneg p -> layout16_ok 1 C (psst p) -> layout16_ok 4 (pK p) (ppst p) -> layout16_ok 4 C (pdst p) ->
   wrap_score_f32_neon true C p = Ok (Entered accs) ->
   Forall (InBounds (ext_score 4 p)) accs /\ Forall (Aligned balign_mat16) accs.
@@ -294,7 +294,7 @@ Proof.
   split; [exact (safe_in_bounds _ _ _ S) | exact (safe_aligned _ _ _ S)].
 Qed.
 
-Theorem fp_score_u8_neon_ranged_safe : forall C p accs,
+Theorem fp_score_u8_neon_safe : forall C p accs,
   sp_nonneg p -> layout16_ok 1 C (psst p) -> layout16_ok 1 (pK p) (ppst p) -> layout16_ok 1 C (pdst p) ->
   wrap_score_u8_neon true C p = Ok (Entered accs) ->
   Forall (InBounds (ext_score 1 p)) accs /\ Forall (Aligned balign_mat16) accs.
@@ -303,22 +303,30 @@ Proof.
   split; [exact (safe_in_bounds _ _ _ S) | exact (safe_aligned _ _ _ S)].
 Qed.
 
-(* FINDING (F26): Neon::score_f32_rows_into / score_u8_rows_into only have the wrap check and the early
-   return (ranged = false).  The full-strength statement — the statements above with `false` — is FALSE:
-   every call these wrappers let through whose row range reaches past the matrix loads 16 bytes beyond
-   the sequence matrix (the defect F09 repaired for AVX2/SSE2 in commit 38882ad, still present here). *)
-Theorem fp_score_neon_unguarded_refuted : forall C p accs,
+(* the repaired wrappers panic exactly where the old ones went out of bounds *)
+Theorem fp_score_neon_guard_panics : forall C p,
+  pM p <> 0 -> pM p - 1 <= pwrap p -> pM p <= pL p -> pa p < pb p -> pSR p < pb p + pM p - 1 ->
+  wrap_score_f32_neon true C p = Panic 4 /\ wrap_score_u8_neon true C p = Panic 4.
+Proof. intros C p H0 H1 H2 H3 H4. split; apply range_guard_panics; auto. Qed.
+
+(* F26 (repaired in commit 9cd9b52): BEFORE that commit Neon::score_f32_rows_into / score_u8_rows_into only
+   had the wrap check and the early return (ranged = false).  Every call those wrappers let through whose row
+   range reached past the matrix loaded 16 bytes beyond the sequence matrix (the defect F09 repaired for
+   AVX2/SSE2 in commit 38882ad): for ALL parameters *)
+Theorem fp_score_neon_old_refuted : forall C p accs,
   sp_nonneg p -> 16 <= C -> 16 <= psst p -> pSR p < pb p + pM p - 1 ->
   (wrap_score_f32_neon false C p = Ok (Entered accs) -> exists a, In a accs /\ ~ InBounds (ext_score 4 p) a) /\
   (wrap_score_u8_neon false C p = Ok (Entered accs) -> exists a, In a accs /\ ~ InBounds (ext_score 1 p) a).
 Proof. exact neon_unranged_oob. Qed.
 
 (* a reachable instance: 64 symbols striped in 16 columns (4 rows), configure_wrap(2) (6 rows), a motif of
-   3 rows, score_rows_into(.., 0..6, ..): the load of matrix row 6 starts at the end of the 96-byte matrix *)
-Theorem fp_score_neon_witness_refuted :
+   3 rows, score_rows_into(.., 0..6, ..): the old wrapper entered the kernel, whose load of matrix row 6
+   starts at the end of the 96-byte matrix; the repaired wrapper panics *)
+Theorem fp_score_neon_old_witness_refuted :
   sp_nonneg neon_rows_witness /\
   layout16_ok 1 16 (psst neon_rows_witness) /\ layout16_ok 4 5 (ppst neon_rows_witness) /\
   layout16_ok 4 16 (pdst neon_rows_witness) /\
+  wrap_score_f32_neon true 16 neon_rows_witness = Panic 4 /\
   exists accs a,
     wrap_score_f32_neon false 16 neon_rows_witness = Ok (Entered accs) /\
     In a accs /\ ~ InBounds (ext_score 4 neon_rows_witness) a /\ a = rd B_SRC 96 16 1.
@@ -327,6 +335,7 @@ Proof.
   split; [unfold layout16_ok, neon_rows_witness; simpl; repeat split; lia|].
   split; [unfold layout16_ok, neon_rows_witness; simpl; repeat split; lia|].
   split; [unfold layout16_ok, neon_rows_witness; simpl; repeat split; lia|].
+  split; [vm_compute; reflexivity|].
   exists (fp_score_f32_neon 16 neon_rows_witness), (rd B_SRC 96 16 1).
   split; [vm_compute; reflexivity|].
   assert (H : first_bad (ext_score 4 neon_rows_witness) balign_mat16
@@ -484,7 +493,11 @@ Check C06_model_passes_partial : forall K pstF pstU ops s,
   layout_ok 4 K pstF -> layout_ok 1 K pstU ->
   hwf s -> Forall hop_wf ops ->
   Forall (fun e => check_C06 (ev_ext e) (ev_al e) (ev_accs e) = true) (htrace K pstF pstU s ops).
-Check fp_score_neon_unguarded_refuted : forall C p accs,
+Check fp_score_f32_neon_safe : forall C p accs,
+  sp_nonneg p -> layout16_ok 1 C (psst p) -> layout16_ok 4 (pK p) (ppst p) -> layout16_ok 4 C (pdst p) ->
+  wrap_score_f32_neon true C p = Ok (Entered accs) ->
+  Forall (InBounds (ext_score 4 p)) accs /\ Forall (Aligned balign_mat16) accs.
+Check fp_score_neon_old_refuted : forall C p accs,
   sp_nonneg p -> 16 <= C -> 16 <= psst p -> pSR p < pb p + pM p - 1 ->
   (wrap_score_f32_neon false C p = Ok (Entered accs) -> exists a, In a accs /\ ~ InBounds (ext_score 4 p) a) /\
   (wrap_score_u8_neon false C p = Ok (Entered accs) -> exists a, In a accs /\ ~ InBounds (ext_score 1 p) a).
